@@ -854,7 +854,7 @@ func boundedRecursion(c *an.Ctx, fns []*ssa.Function, scope map[*ssa.Function][]
 				}
 				if entryLookup != nil {
 					an.EachInstr(callee, func(in ssa.Instruction) {
-						if mu, ok := in.(*ssa.MapUpdate); ok && an.SameValue(mu.Map, entryLookup.X) && an.SameValue(mu.Key, entryLookup.Index) && an.Dominates(mu, e.Site) {
+						if mu, ok := in.(*ssa.MapUpdate); ok && an.SameObject(mu.Map, entryLookup.X) && an.SameValue(mu.Key, entryLookup.Index) && an.Dominates(mu, e.Site) {
 							ed.guarded, ed.why = true, "the callee refuses an argument it has marked, and marks before recursing"
 						}
 					})
